@@ -19,7 +19,7 @@ AMG_RELAX = ["damped_jacobi", "spai0", "gauss_seidel", "ilu0", "chebyshev"]
 PREC_RELAX = ["damped_jacobi", "spai0", "gauss_seidel", "ilu0", "iluk", "ilup", "ilut", "chebyshev", "spai1"]
 DRIVERS = ["reuse", "reuse_comp"] + ["reuse_amg_" + c for c in COARSENINGS]
 OPS = ("ramg.", "rprec", "rsky", "rdefl", "rcpr", "rschur", "rmbs")
-TMO = 400
+TMO = 150   # a mutated smoother can make the exact rationals explode: bounded per shard
 
 _H = os.path.join(os.path.dirname(os.path.dirname(os.path.dirname(os.path.abspath(__file__)))), "harness")
 def extra_flags():
